@@ -5,15 +5,16 @@ import numpy as np
 
 from props import backends_common as bc
 from props import gauss_common as gc
+from props import bosonic_model as bm
 from props import fock_axes as fa
 from vlib import sfgen
 
 PROP = "C01"
 LEVEL = "proof"
-COQ_DIRS = ["C01", "FockAxes"]
-COQ_TARGETS = ["Gen/GaussCirc.vo", "Base/GaussTac.vo", "Base/PhaseSpace.vo", "C01/GaussPhaseSpace.vo"] + list(fa.COQ_TARGETS)
+COQ_DIRS = ["C01", "FockAxes", "Bosonic", "BosonicAgree", "C07"]
+COQ_TARGETS = ["Gen/GaussCirc.vo", "Base/GaussTac.vo", "Base/PhaseSpace.vo", "C01/GaussPhaseSpace.vo"] + list(fa.COQ_TARGETS) + list(bm.COQ_TARGETS) + list(bm.COQ_TARGETS_AGREE)
 PROPERTIES_FILE = "Properties/C01.v"
-EXTRA_PROPERTIES_FILES = [fa.PROPERTIES_FILE]
+EXTRA_PROPERTIES_FILES = [fa.PROPERTIES_FILE, bm.PROPERTIES_FILE, bm.PROPERTIES_FILE_AGREE]
 ALLOWED_AXIOMS = set()
 TRANSLATORS = [gc.translate_gausscirc]
 RULE = ("(a) generated-function and read-out correspondence (GaussianModes methods, scovmatxp/smeanxp) at binary64; (b) differential search: random "
@@ -197,6 +198,7 @@ def reference(spec):
 # ------------------------------------------------------------------------------------------
 
 def correspondence(ctx):
+    bm.correspondence_bosonic(ctx, predicates=('reference', 'spectator'))
     failing = gc.correspondence_generated(ctx, ctx.budget(240, 3000), tag="c01")
     if failing:
         for c in failing[:5]:
@@ -340,6 +342,8 @@ def shrink(spec, pred):
 
 def replay(ctx, data):
     d = data["data"]
+    if str(d.get("check", "")).startswith("bosonic"):
+        return bm.replay_bosonic(ctx, data)
     if d.get("check") == "fock-axes":
         return fa.replay_fock_axes(ctx, data)
     spec = d.get("spec")
